@@ -702,6 +702,16 @@ impl<W: Word, B: AsRef<[W]> + AsMut<[W]>> BitFieldSliceMut<W> for BitFieldVec<W,
         let mut write_buffer: W = W::ZERO;
         let mut read_buffer: W = *self.bits.as_ref().get_unchecked(0);
 
+        // With full-width fields every element is a word (and the shifts by
+        // bit_width below would overflow).
+        if bit_width == W::BITS {
+            let len = self.len();
+            for word in self.bits.as_mut()[..len].iter_mut() {
+                *word = f(*word);
+            }
+            return;
+        }
+
         // specialized case because it's much faster
         if bit_width.is_power_of_two() {
             let mut bits_in_buffer = 0;
